@@ -54,6 +54,8 @@ pub fn render(v: &Value) -> Value {
     "t4" => json!({"X": sub("$Y"), "Y": sub("$X")}),
     "t5" => json!({"X": sub("$Y"), "Y": sub("$A")}),
     "t7" => json!({"X": {"rewrite": {"source": "$A", "rewriters": ["R1"]}}}),
+    "t9" => json!({"X": {"rewrite": {"source": "$X", "rewriters": ["R1"]}}}),
+    "t10" => json!({"X": {"rewrite": {"source": "$Y", "rewriters": ["R1"]}}, "Y": sub("$X")}),
     _ => json!({"X": {"rewrite": {"source": "$A", "rewriters": ["R9"]}}}),
   };
   let fix = match s("f") {
